@@ -744,6 +744,38 @@ func chanOpsOn(P *Program, match func(chDesc string) bool) []chanOp {
 	var scan func(fn, owner *ssa.Function, via ssa.CallInstruction, depth int)
 	scan = func(scanned, owner *ssa.Function, via ssa.CallInstruction, depth int) {
 		fn := owner
+		// operations of a local closure are its enclosing function's; a captured channel is the value it captured
+		for fn.Parent() != nil && via == nil {
+			fn = fn.Parent()
+		}
+		matchV := func(v ssa.Value) bool {
+			if match(desc(v)) {
+				return true
+			}
+			var fv *ssa.FreeVar
+			switch x := v.(type) {
+			case *ssa.FreeVar:
+				fv = x
+			case *ssa.UnOp:
+				if x.Op == token.MUL {
+					fv, _ = x.X.(*ssa.FreeVar)
+				}
+			}
+			if fv != nil {
+				if cv, ok := capturedValue(fv); ok && cv != nil {
+					return match(desc(cv))
+				}
+			}
+			// in the enclosing function the captured variable lives in a cell
+			if ld, ok := v.(*ssa.UnOp); ok && ld.Op == token.MUL {
+				if al, isAl := ld.X.(*ssa.Alloc); isAl {
+					if cv, ok := cellValueAt(al, ld); ok && cv != nil {
+						return match(desc(cv))
+					}
+				}
+			}
+			return false
+		}
 		n0 := len(out)
 		defer func() {
 			for k := n0; k < len(out); k++ {
@@ -761,7 +793,7 @@ func chanOpsOn(P *Program, match func(chDesc string) bool) []chanOp {
 				}
 				passes := false
 				for _, a := range callArgs(c) {
-					if _, isChan := a.Type().Underlying().(*types.Chan); isChan && match(desc(a)) {
+					if _, isChan := a.Type().Underlying().(*types.Chan); isChan && matchV(a) {
 						passes = true
 					}
 				}
@@ -774,16 +806,16 @@ func chanOpsOn(P *Program, match func(chDesc string) bool) []chanOp {
 		allInstrs(scanned, func(i ssa.Instruction) {
 			switch x := i.(type) {
 			case *ssa.Send:
-				if match(desc(x.Chan)) {
+				if matchV(x.Chan) {
 					out = append(out, chanOp{fn: fn, kind: "send", val: x.X, ins: x})
 				}
 			case *ssa.UnOp:
-				if x.Op == token.ARROW && match(desc(x.X)) {
+				if x.Op == token.ARROW && matchV(x.X) {
 					out = append(out, chanOp{fn: fn, kind: "recv", val: x, ins: x})
 				}
 			case *ssa.Select:
 				for idx, st := range x.States {
-					if !match(desc(st.Chan)) {
+					if !matchV(st.Chan) {
 						continue
 					}
 					if st.Dir == types.SendOnly {
@@ -806,11 +838,11 @@ func chanOpsOn(P *Program, match func(chDesc string) bool) []chanOp {
 					}
 				}
 			case *ssa.Store:
-				if mc, ok := x.Val.(*ssa.MakeChan); ok && match(desc(x.Addr)) {
+				if mc, ok := x.Val.(*ssa.MakeChan); ok && matchV(x.Addr) {
 					out = append(out, chanOp{fn: fn, kind: "make", val: mc, ins: x})
 				}
 			case *ssa.Call:
-				if isCallTo(x, "builtin:close") && match(desc(callArgs(x)[0])) {
+				if isCallTo(x, "builtin:close") && matchV(callArgs(x)[0]) {
 					out = append(out, chanOp{fn: fn, kind: "close", val: callArgs(x)[0], ins: x})
 				}
 			}
@@ -912,6 +944,20 @@ func cacheProtocolRule(P *Program, R *Report) {
 					}
 				case *ssa.Call:
 					n := calleeName(u)
+					// handed to a local closure or unexported helper of the package (e.g. `offer(b)` doing the non-blocking
+					// put-back): the flow continues at that function's parameter
+					if g := staticCallee(u); g != nil && inModuleFn(g) && g.Blocks != nil && (g.Parent() != nil || (g.Object() != nil && !g.Object().Exported())) && n != "gabi.(*NonRevocationProofBuilder).UpdateCommit" {
+						followed := false
+						for ai, a := range callArgsRaw(u) {
+							if a == v && ai < len(g.Params) {
+								walk(g.Params[ai])
+								followed = true
+							}
+						}
+						if followed {
+							continue
+						}
+					}
 					uses = append(uses, "call "+n)
 					if n != "gabi.(*NonRevocationProofBuilder).UpdateCommit" {
 						okFlow = false
@@ -936,6 +982,56 @@ func cacheProtocolRule(P *Program, R *Report) {
 		walk(o.val)
 		sort.Strings(uses)
 		R.decide(rule, k+":received-builder-flow", "a builder taken from the cache is only refreshed (UpdateCommit) and then either returned to the caller or put back once", okFlow, strings.Join(uses, ", "), P.Pos(o.ins.Pos()))
+	}
+	// a cached builder is put back only after its refresh succeeded: every path to a send passes "UpdateCommit
+	// returned nil" (the builder came from the cache) or "NonrevBuildProofBuilder returned no error" (a new one) - a
+	// builder published before or without a successful refresh is shared while it is still being written, or stale
+	for _, o := range ops {
+		if o.kind != "send" {
+			continue
+		}
+		fresh := func(a Atom) bool {
+			c, idx := callAndResult(a.V)
+			if c == nil {
+				return false
+			}
+			if calleeIs(c, "gabi.(*NonRevocationProofBuilder).UpdateCommit") && a.Want == Nil {
+				return true
+			}
+			return calleeIs(c, "gabi.(*Credential).NonrevBuildProofBuilder") && idx == 1 && a.Want == Nil
+		}
+		// the send may sit in a helper or a local closure: the obligation is then on every call of it
+		type site struct {
+			fn  *ssa.Function
+			ins ssa.Instruction
+		}
+		sites := []site{{o.ins.Parent(), o.ins}}
+		if o.via != nil {
+			sites = []site{{o.via.Parent(), o.via}}
+		} else if par := o.ins.Parent().Parent(); par != nil {
+			sites = nil
+			for _, c := range callsIn(par) {
+				if staticCallee(c) == o.ins.Parent() {
+					sites = append(sites, site{par, c})
+				} else if cl, isCl := c.Common().Value.(*ssa.MakeClosure); isCl && cl.Fn == ssa.Value(o.ins.Parent()) {
+					sites = append(sites, site{par, c})
+				} else if origin(c.Common().Value) != nil {
+					if cl, isCl := origin(c.Common().Value).(*ssa.MakeClosure); isCl && cl.Fn == ssa.Value(o.ins.Parent()) {
+						sites = append(sites, site{par, c})
+					}
+				}
+			}
+		}
+		okAll := len(sites) > 0
+		var why []string
+		for _, st := range sites {
+			r := (&MustPass{P: P, Match: fresh}).MustReach(st.fn, st.ins)
+			if !r.Holds {
+				okAll = false
+				why = append(why, r.Path)
+			}
+		}
+		R.decide(rule, FuncKey(o.fn)+":put-back-after-refresh", "a builder is put into the cache only after UpdateCommit (or building it) succeeded", okAll, strings.Join(why, "\n"), P.Pos(o.ins.Pos()))
 	}
 	// consumers of nonrevConsumeBuilder
 	cons := P.Func(consume)
